@@ -40,6 +40,6 @@ def run(ctx):
                        'distinct by the vector of (mobilizer type, reversed)')
     ctx.assumptions += ['theorems over R; float runs only validate the model against the code',
                         'per-body hinge columns H_PB_G, shift vectors and Coriolis terms are taken from the implementation (their relation to q is C03/C05)']
-    if ctx.broken or ctx.tier == 'thorough':
-        search(ctx, 'C04', 300 if ctx.tier == 'quick' else 3000, 12)
+    # the implementation-side predicates are cheap: evaluated on every run (they are what hands over a failing input)
+    search(ctx, 'C04', 150 if ctx.tier == 'quick' else 3000, 12)
     ctx.finish()
